@@ -498,3 +498,202 @@ Proof.
       pose proof (div_ge (size lbl d - m) m 2 Hm ltac:(lia)) as H6.
       lia.
 Qed.
+
+Lemma refill_none ord : forall lbl rem dr,
+  Inv lbl rem ord -> draws_valid m lbl rem ord dr ->
+  (refill m lbl rem ord dr = None <-> pot lbl rem < length ord).
+Proof.
+  induction ord as [|e ord' IH]; intros lbl rem dr HI HD.
+  - cbn. split; [discriminate|lia].
+  - rewrite refill_cons. rewrite draws_valid_cons in HD.
+    destruct rem as [|d rest].
+    + cbn. split; auto. intros _. unfold pot; cbn; lia.
+    + destruct (i_rem _ _ _ HI d (in_eq _ _)) as [Hd1 Hd2].
+      rewrite (find_donor_hd _ _ _ _ _ Hd2) in HD.
+      rewrite (find_donor_hd _ _ _ _ _ Hd2).
+      destruct HD as [HD1 HD2].
+      destruct (inv_step _ _ _ _ _ _ HI HD1) as [HI' Hpot].
+      rewrite (IH _ _ _ HI' HD2). cbn [length]. lia.
+Qed.
+
+Lemma refill_some ord : forall lbl rem dr out,
+  Inv lbl rem ord -> draws_valid m lbl rem ord dr ->
+  refill m lbl rem ord dr = Some out -> exists rem', Inv out rem' [].
+Proof.
+  induction ord as [|e ord' IH]; intros lbl rem dr out HI HD HR.
+  - cbn in HR. inversion HR; subst. exists rem; auto.
+  - rewrite refill_cons in HR. rewrite draws_valid_cons in HD.
+    destruct rem as [|d rest].
+    + cbn in HR. discriminate.
+    + destruct (i_rem _ _ _ HI d (in_eq _ _)) as [Hd1 Hd2].
+      rewrite (find_donor_hd _ _ _ _ _ Hd2) in HD.
+      rewrite (find_donor_hd _ _ _ _ _ Hd2) in HR.
+      destruct HD as [HD1 HD2].
+      destruct (inv_step _ _ _ _ _ _ HI HD1) as [HI' Hpot].
+      apply (IH _ _ _ _ HI' HD2 HR).
+Qed.
+
+Lemma refill_eq_simple ord : forall lbl rem dr,
+  Inv lbl rem ord -> draws_valid m lbl rem ord dr ->
+  refill m lbl rem ord dr = refill_simple m lbl rem ord dr.
+Proof.
+  induction ord as [|e ord' IH]; intros lbl rem dr HI HD.
+  - reflexivity.
+  - rewrite refill_cons, refill_simple_cons. rewrite draws_valid_cons in HD.
+    destruct rem as [|d rest].
+    + reflexivity.
+    + destruct (i_rem _ _ _ HI d (in_eq _ _)) as [Hd1 Hd2].
+      rewrite (find_donor_hd _ _ _ _ _ Hd2) in HD.
+      rewrite (find_donor_hd _ _ _ _ _ Hd2), find_donor_simple_hd.
+      destruct HD as [HD1 HD2].
+      destruct (inv_step _ _ _ _ _ _ HI HD1) as [HI' Hpot].
+      apply (IH _ _ _ HI' HD2).
+Qed.
+
+Definition trace_prop (t : nat * nat * list nat * list nat) : Prop :=
+  let '(d, e, lbl, rem) := t in
+  (exists rest, rem = d :: rest /\ 2 * m <= size lbl d) /\
+  In e order /\ size labels e < 2 /\
+  forall k, k < K -> 2 * m <= size labels k -> 2 * m <= size lbl k -> spread k <= spread d.
+
+Lemma trace_ok ord : forall lbl rem dr,
+  Inv lbl rem ord -> draws_valid m lbl rem ord dr ->
+  Forall trace_prop (refill_trace m lbl rem ord dr).
+Proof.
+  induction ord as [|e ord' IH]; intros lbl rem dr HI HD.
+  - constructor.
+  - rewrite refill_trace_cons. rewrite draws_valid_cons in HD.
+    destruct rem as [|d rest].
+    + cbn. constructor.
+    + destruct (i_rem _ _ _ HI d (in_eq _ _)) as [Hd1 Hd2].
+      rewrite (find_donor_hd _ _ _ _ _ Hd2) in HD.
+      rewrite (find_donor_hd _ _ _ _ _ Hd2).
+      destruct HD as [HD1 HD2].
+      destruct (inv_step _ _ _ _ _ _ HI HD1) as [HI' Hpot].
+      constructor; [|apply (IH _ _ _ HI' HD2)].
+      unfold trace_prop.
+      assert (He : In e order) by (apply (i_ordin _ _ _ HI); apply in_eq).
+      split; [exists rest; auto|]. split; auto.
+      split; [apply order_small; auto|].
+      intros k Hk1 Hk2 Hk3.
+      assert (Hkd : In k donors0) by (apply donors_iff; auto).
+      destruct (in_dec Nat.eq_dec k (d :: rest)) as [Hin|Hnin].
+      * destruct Hin as [->|Hin]; auto.
+        pose proof (StronglySorted_inv (i_sorted _ _ _ HI)) as [_ HF].
+        rewrite Forall_forall in HF. apply HF; auto.
+      * pose proof (i_out _ _ _ HI k Hkd Hnin). lia.
+Qed.
+
+Lemma final_props out rem' :
+  Inv out rem' [] ->
+  length out = length labels /\ Forall (fun c => c < K) out /\
+  (forall p, p < length labels -> nth p out 0 <> nth p labels 0 ->
+      2 * m <= size labels (nth p labels 0) /\ size labels (nth p out 0) < 2 /\
+      In (nth p out 0) order) /\
+  (forall k, In k order -> size out k = size labels k + m) /\
+  (forall k, k < K -> ~ In k order ->
+      exists j, size labels k = size out k + j * m /\
+                (0 < j -> 2 * m <= size labels k /\ m <= size out k)).
+Proof.
+  intros HI. split; [|split; [|split; [|split]]].
+  - apply (F2_len _ _ _ (i_pt _ _ _ HI)).
+  - apply (i_lt _ _ _ HI).
+  - intros p Hp Hne.
+    pose proof (F2_nth _ _ _ 0 (i_pt _ _ _ HI) p Hp) as H. cbn beta in H.
+    destruct H as [H|H]; [congruence|exact H].
+  - intros k Hk. apply (i_done _ _ _ HI); auto.
+  - intros k Hk Hnin. destruct (le_lt_dec (2 * m) (size labels k)) as [H2|H2].
+    + assert (Hkd : In k donors0) by (apply donors_iff; auto).
+      destruct (i_don _ _ _ HI k Hkd) as [j [Hj1 Hj2]].
+      exists j. split; auto.
+    + exists 0. split; [|intros; lia].
+      rewrite (i_other _ _ _ HI k); auto. intros Hkd. apply donors_iff in Hkd. lia.
+Qed.
+
+End Main.
+
+(* ------------------------------------------------------------------ *)
+(* the theorems                                                         *)
+(* ------------------------------------------------------------------ *)
+
+Definition Hyp (K m : nat) (spread : nat -> nat) (order : list nat) (draws : list (list nat))
+           (labels : list nat) : Prop :=
+  1 <= m /\ Forall (fun c => c < K) labels /\ NoDup order /\
+  (forall k, In k order <-> In k (under K labels)) /\
+  draws_valid m labels (rank_donors K m spread labels) order draws.
+
+Theorem repop_empty_order K m spread draws labels :
+  repopulate K m spread [] draws labels = Some labels.
+Proof. reflexivity. Qed.
+
+Theorem repop_error_iff K m spread order draws labels :
+  Hyp K m spread order draws labels -> order <> [] ->
+  (repopulate K m spread order draws labels = None <-> capacity K m labels < length order).
+Proof.
+  intros (Hm & Hlt & Hnd & Hord & HD) _.
+  rewrite repop_refill.
+  rewrite <- (pot_init K m spread labels).
+  apply (refill_none K m spread labels order Hm Hord); auto.
+  apply inv_init; auto.
+Qed.
+
+Theorem repop_ok K m spread order draws labels out :
+  Hyp K m spread order draws labels -> repopulate K m spread order draws labels = Some out ->
+  length out = length labels /\ Forall (fun c => c < K) out /\
+  (forall p, p < length labels -> nth p out 0 <> nth p labels 0 ->
+      2 * m <= size labels (nth p labels 0) /\ size labels (nth p out 0) < 2 /\ In (nth p out 0) order) /\
+  (forall k, In k order -> size out k = size labels k + m) /\
+  (forall k, k < K -> ~ In k order ->
+      exists j, size labels k = size out k + j * m /\ (0 < j -> 2 * m <= size labels k /\ m <= size out k)).
+Proof.
+  intros (Hm & Hlt & Hnd & Hord & HD) HR.
+  rewrite repop_refill in HR.
+  destruct (refill_some K m spread labels order Hm Hord order labels _ draws out
+              (inv_init K m spread labels order Hm Hlt Hnd) HD HR) as [rem' HI].
+  apply (final_props K m spread labels order Hm out rem' HI).
+Qed.
+
+(* the removelast branch of find_donor is never taken *)
+Theorem repop_dead_branch K m spread order draws labels :
+  Hyp K m spread order draws labels ->
+  refill m labels (rank_donors K m spread labels) order draws
+  = refill_simple m labels (rank_donors K m spread labels) order draws /\
+  Forall (fun t => let '(d, e, lbl, rem) := t in exists rest, rem = d :: rest /\ 2 * m <= size lbl d)
+         (refill_trace m labels (rank_donors K m spread labels) order draws).
+Proof.
+  intros (Hm & Hlt & Hnd & Hord & HD).
+  pose proof (inv_init K m spread labels order Hm Hlt Hnd) as HI.
+  split.
+  - apply (refill_eq_simple K m spread labels order Hm Hord order _ _ _ HI HD).
+  - pose proof (trace_ok K m spread labels order Hm Hord order _ _ _ HI HD) as HT.
+    eapply Forall_impl; [|exact HT].
+    intros [[[d e] lbl] rem] H. unfold trace_prop in H. tauto.
+Qed.
+
+Theorem repop_donor_order K m spread order draws labels :
+  Hyp K m spread order draws labels ->
+  Forall (fun t => let '(d, e, lbl, rem) := t in
+            2 * m <= size lbl d /\ In e order /\ size labels e < 2 /\
+            forall k, k < K -> 2 * m <= size labels k -> 2 * m <= size lbl k -> spread k <= spread d)
+         (refill_trace m labels (rank_donors K m spread labels) order draws).
+Proof.
+  intros (Hm & Hlt & Hnd & Hord & HD).
+  pose proof (inv_init K m spread labels order Hm Hlt Hnd) as HI.
+  pose proof (trace_ok K m spread labels order Hm Hord order _ _ _ HI HD) as HT.
+  eapply Forall_impl; [|exact HT].
+  intros [[[d e] lbl] rem] H. unfold trace_prop in H.
+  destruct H as ([rest [_ H1]] & H2 & H3 & H4). auto.
+Qed.
+
+(* the guarantees compose over consecutive applications *)
+Theorem repop_preserves_wf K m spread order draws labels out :
+  Hyp K m spread order draws labels -> repopulate K m spread order draws labels = Some out ->
+  length out = length labels /\ Forall (fun c => c < K) out.
+Proof.
+  intros H HR. destruct (repop_ok _ _ _ _ _ _ _ H HR) as (H1 & H2 & _). auto.
+Qed.
+
+Print Assumptions repop_error_iff.
+Print Assumptions repop_ok.
+Print Assumptions repop_dead_branch.
+Print Assumptions repop_donor_order.
